@@ -147,7 +147,11 @@ def _run(scn: Dict[str, Any]) -> Dict[str, Any]:
                                 months=_spec_value(c["f"][3]), weekdays=_spec_value(c["f"][4]), offset=off)
                 expr = spec.to_cron()
                 off = spec.offset
-            task = ScheduledTask(task_name="t", labels={}, args=[], kwargs={}, cron=expr, cron_offset=off)
+            extra: Dict[str, Any] = {}
+            if c.get("also_time"):
+                # an entry that carries a `time` next to its cron expression: it is a cron schedule, the time changes nothing
+                extra["time"] = _Clock.now_utc + _dt.timedelta(seconds=c["also_time"])
+            task = ScheduledTask(task_name="t", labels={}, args=[], kwargs={}, cron=expr, cron_offset=off, **extra)
             try:
                 res = sched_run.get_task_delay(task)
                 r = -1 if res is None else int(res)
